@@ -1,6 +1,6 @@
 (* C02 — Clean restart preserves the exact key-value mapping, under any configuration. *)
 From KV Require Import Bytes GenConsts Chunk Record Engine Script AMapLemmas EngineInv EngineBatch
-  EngineRefine EngineLog EngineRecover.
+  EngineRefine EngineLog EngineRecover EngineCrash EngineOpen EngineAdopt EngineMerge EngineKeep EngineMergeRun.
 Open Scope N_scope.
 
 (* For EVERY history over Put / Get / Delete / ListKeys / Fold / Stat / Sync / batches (non-zero
@@ -11,7 +11,7 @@ Open Scope N_scope.
    every Open after a Close succeeds (its result is "no error"), deleted keys stay deleted,
    committed batches stay applied (atomically: the batch-finished record seals exactly the
    records of its batch, across file boundaries).
-   Histories containing Merge are treated by C06 (adoption) and by the correspondence run. *)
+   Histories containing Merge: the next theorem. *)
 Theorem C02_restart_preserves_mapping :
   forall c ops d k evs0 s' rs evs,
   Forall op_ok ops ->
@@ -25,6 +25,30 @@ Proof.
   exact (proj1 (run_log ops d0 k0 [] s' rs evs HL Hnm Hok Hrun)).
 Qed.
 Print Assumptions C02_restart_preserves_mapping.
+
+(* The same with merges anywhere in the history (each scanning its input files in any order that covers
+   them): restarts after a merge that finished (the restart adopts it), after one that was abandoned,
+   after an adopted one, with further writes in between - the mapping is never changed by a restart.
+   This is the invariant G of C06 specialised to Restart: from EVERY reachable state, Close; Open c
+   succeeds and yields a state in the invariant for the same mapping. *)
+Theorem C02_restart_preserves_mapping_with_merges :
+  forall c ops d k ev0 s' rs evs,
+    db_open c empty_disk = (OpenOk d k, ev0) ->
+    ops_ok (d, k) ops ->
+    run (d, k) ops = (s', rs, evs) ->
+    map proj rs = map proj (srun [] ops).
+Proof.
+  intros c ops d k ev0 s' rs evs Ho Hok Hrun.
+  destruct (open_empty_G c) as (d0 & k0 & e0 & Ho' & HG). rewrite Ho in Ho'. injection Ho' as <- <- _.
+  exact (proj1 (run_G ops d k [] s' rs evs HG Hok Hrun)).
+Qed.
+Print Assumptions C02_restart_preserves_mapping_with_merges.
+
+Theorem C02_restart_from_any_reachable_state :
+  forall d k M c d' k' r evs,
+    G d k M -> step (d, k) (OpRestart c) = ((d', k'), r, evs) -> G d' k' M /\ r = RErr None.
+Proof. exact G_restart. Qed.
+Print Assumptions C02_restart_from_any_reachable_state.
 
 (* The mechanism: after Close, Open with ANY configuration rebuilds, by replaying the data files
    in ascending id order with per-batch buffering, a database that denotes the same map and
